@@ -166,6 +166,36 @@ def search(ck, drv, tier, seed):
                 if lp.shape != lp2.shape or not torch.allclose(lp, lp2, atol=2e-4, rtol=2e-4):
                     ck.finding("flow:returned-log_prob-is-not-log_prob-of-sample:%s" % name,
                                "rows %s n %d: max diff %g" % (k, n, float((lp - lp2).abs().max())), case)
+    # ---- the noise is standard normal whatever the dtype of the context (only its size and device matter)
+    from nflows.transforms.standard import PointwiseAffineTransform as PA
+    for dname, mkctx in (("int64", lambda: torch.tensor([[3], [1]], dtype=torch.int64)),
+                         ("float16", lambda: torch.tensor([[0.5], [1.5]], dtype=torch.float16)),
+                         ("bfloat16", lambda: torch.tensor([[0.5], [1.5]], dtype=torch.bfloat16)),
+                         ("float64", lambda: torch.tensor([[0.5], [1.5]], dtype=torch.float64)),
+                         ("bool", lambda: torch.tensor([[True], [False]]))):
+        for oname, obj, shift, scale in (("StandardNormal", StandardNormal([1]), 0.0, 1.0),
+                                         ("Flow(Affine, StandardNormal)", Flow(PA(0.5, 2.0), StandardNormal([1])), 0.5, 2.0)):
+            N = 10000
+            ck.case(("ctx-dtype", dname, oname), nontrivial=True)
+            case = {"search": "context-dtype", "object": oname, "context_dtype": dname, "draws_per_row": N, "seed": seed}
+            torch.manual_seed(seed + 5)
+            with torch.no_grad():
+                r = attempt(obj.sample, N, mkctx())
+            if r[0] != "ok":
+                ck.count("context-dtype-rejected")     # a refusal is not a wrong sample
+                continue
+            smp = r[1]
+            if list(smp.shape) != [2, N, 1]:
+                ck.finding("base-rows:shape:%s" % oname, "context dtype %s -> %s" % (dname, list(smp.shape)), case)
+                continue
+            v = (smp.double().reshape(-1) * scale + shift).sort().values     # the sample is the inverse of x*scale+shift applied to the noise
+            emp = torch.arange(1, v.numel() + 1, dtype=torch.float64) / v.numel()
+            ks = float((0.5 * (1 + torch.erf(v / math.sqrt(2))) - emp).abs().max())
+            distinct = int(torch.unique(v).numel())
+            if (not smp.dtype.is_floating_point) or ks > 0.02 or distinct < 0.97 * v.numel():
+                ck.finding("flow:samples-do-not-follow-density:context-dtype:%s" % oname,
+                           "context dtype %s: samples dtype %s, KS distance %.4f from the standard normal, %d distinct values in %d"
+                           % (dname, smp.dtype, ks, distinct, v.numel()), case)
     # ---- the samples follow exp(log_prob): 1-D flow, KS distance against the quadrature CDF (fixed seed; search aid)
     from nflows.flows.base import Flow
     from nflows.transforms import base, nonlinearities as nl, standard
